@@ -29,7 +29,7 @@ PROFILES = {
     "C06": dict(tags={"index", "exit"}, names={"add", "rm", "restore", "restore-staged", "reset"},
                 weights={"add": 20, "rm": 10, "restore": 7, "restore-staged": 7, "reset": 4},
                 components=[b"d", b"ad", b"d-old", b"d.c", b"d0", b"d e", b"d(", b"x", b"d)", b"d!", b"a+b"],
-                depths=[1, 1, 2, 2, 3]),
+                depths=[1, 1, 2, 2, 3, 4]),
     "C07": dict(tags={"output", "exit", "refs", "object"}, names={"status", "commit"},
                 weights={"status": 14, "commit": 14, "add": 16, "rm": 6, "restore-staged": 5},
                 components=[b"test", b"test.c", b"test-data", b"lib", b"lib.go", b"lib-old", b"a", b"d", b"d-x", b"x"],
@@ -38,7 +38,7 @@ PROFILES = {
                 weights={"reset": 14, "reflog": 8, "commit": 14, "switch": 4, "switch-c": 3, "edit": 24}),
     "C09": dict(tags={"index", "work tree", "exit"}, names={"restore", "restore-staged"},
                 weights={"restore": 14, "restore-staged": 14, "edit": 28, "add": 14, "commit": 8},
-                components=[b"d", b"ad", b"d-old", b"a+b", b"d(", b"x", b"lib", b"lib.go", b"f"], depths=[1, 2, 2, 3]),
+                components=[b"d", b"ad", b"d-old", b"a+b", b"d(", b"x", b"lib", b"lib.go", b"f"], depths=[1, 2, 2, 3, 4, 4]),
     "C10": dict(tags={"refs", "HEAD", "exit", "output"},
                 names={"branch", "branch-list", "branch-rename", "branch-delete", "switch", "switch-c", "update-ref",
                        "rev-parse", "commit", "reset"},
